@@ -782,6 +782,11 @@ def method_render(self):
                         lines.append('  %s = (char *)%s - (char *)%s;' % (L, self.expr(a), self.expr(c))); continue
                     if pa or pc:
                         raise G2CError('unsupported pointer arithmetic %r in %s' % (s, f.pretty))
+                # 64-bit / double multiplication, division, remainder go through macros so that a proof
+                # may abstract the machine operation as an uninterpreted function (rt.h, G2C_ABSTRACT_MULDIV)
+                if len(parts) == 3 and parts[1] in ('*', '/', '%', '+', '-') and '(' not in rhs:
+                    mac = {'*': 'G2C_MUL', '/': 'G2C_DIV', '%': 'G2C_MOD', '+': 'G2C_ADD', '-': 'G2C_SUB'}[parts[1]]
+                    lines.append('  %s = %s(%s, %s);' % (self.expr(lhs), mac, self.expr(parts[0]), self.expr(parts[2]))); continue
                 m2 = re.match(r'^~(\S+)$', rhs)
                 if m2:
                     lines.append('  %s = G2C_NOT(%s);' % (self.expr(lhs), self.expr(m2.group(1)))); continue
@@ -890,8 +895,9 @@ def cname_of(q, aliases):
     return (s2[:40] + '_' + h)
 
 class Renderer:
-    def __init__(self, unit, objfile, aliases=None, line_directives=True, transparent=(), enums=()):
+    def __init__(self, unit, objfile, aliases=None, line_directives=True, transparent=(), enums=(), extra_structs=()):
         self.enums = list(enums)
+        self.extra_structs = list(extra_structs)
         self.unit = unit
         self.obj = objfile
         self.aliases = aliases or {}
@@ -990,7 +996,7 @@ class Renderer:
                 mm = re.match(r'^(.*?)\s*((?:[A-Za-z_]' + IDCH + r'*?)?D_\d+)$', p.strip())
                 ps.append(base_tok(mm.group(1)) if mm else None)
             sigs.append({'mangled': f.mangled, 'dem': self.unit.dem.get(f.mangled, ''), 'ret': base_tok(f.rettype), 'params': ps})
-        req = {'structs': structs, 'scalars': [list(x) for x in sorted(self.scalar_refs)], 'transparent': self.transparent, 'sigs': sigs, 'enums': self.enums}
+        req = {'structs': structs, 'scalars': [list(x) for x in sorted(self.scalar_refs)], 'transparent': self.transparent, 'sigs': sigs, 'enums': self.enums, 'extra_structs': self.extra_structs}
         json.dump(req, open(reqf, 'w'))
         env = dict(os.environ, G2C_REQ=reqf, G2C_OUT=outf)
         here = os.path.dirname(os.path.abspath(__file__))
